@@ -11,6 +11,7 @@ import numpy as np
 from vmon import core, gen, contracts
 from vmon import refmodel as rm
 
+ANCHORS = ['evo/core/sync.py', 'evo/core/trajectory.py']
 LEVEL = "exploration"
 SHARDS = {"quick": 8, "thorough": 16}
 RULE = ("pairs of strictly increasing timestamp vectors from class generators (same/different "
